@@ -18,8 +18,8 @@ NEED = ('accept-D', 'accept-R', 'reject', 'reply-MORE', 'soft-done', 'reannounce
 def plan(tier):
     S = pcommon.S
     if tier == 'quick':
-        return [S('solo/hurry/login+drone/t30', 'login+drone', 30, [2], alpha.scen_hurry([2], pbudget=1, alt_announce=True))]      # incl. the id re-announced from another address
-    return [S('solo/hurry/%s/t30' % g, g, 30, [2], alpha.scen_hurry([2], alt_announce=True)) for g in ('login+drone', 'ipr+comb', 'all4')] + \
+        return [S('solo/hurry/login+drone/t30', 'login+drone', 30, [2], alpha.scen_hurry([2], pbudget=1, alt_announce=True, replies=proto.REPLY_KINDS + ('OKT',)))]      # incl. the id re-announced from another address / port, an account followed by free text
+    return [S('solo/hurry/%s/t30' % g, g, 30, [2], alpha.scen_hurry([2], alt_announce=True, replies=proto.REPLY_KINDS + ('OKT',))) for g in ('login+drone', 'ipr+comb', 'all4')] + \
            [S('pair/tiny/login+drone/t30', 'login+drone', 30, [1, 2], alpha.tiny([1, 2]))]
 
 # ---- 2. addresses --------------------------------------------------------------------------------------
